@@ -377,7 +377,7 @@ def fault_scenarios(binf, tier):
 
 def suite_fault(binf, tier, rng):
     out = {"runs": 0, "skipped": 0, "failures": [], "dist": {}}
-    errnos = ("EIO", "ENOSPC") if tier == "quick" else ("EIO", "ENOSPC", "EACCES", "EMFILE")
+    errnos = ("EIO", "ENOSPC", "EACCES") if tier == "quick" else ("EIO", "ENOSPC", "EACCES", "EMFILE")
     K, K2 = kx("k"), kx("other")
     import tempfile, shutil
     for name, setup, ops, targets, kind, key, data in fault_scenarios(binf, tier):
